@@ -428,22 +428,36 @@ def check_pair(ctx, rc, ent, requests):
             if len(res[1]) != len(ms):
                 ok = False
                 ctx.violation('the number of product sets is not the number of matches', inp, expected=len(ms), observed=len(res[1]))
-            for k, (f, a, p) in enumerate(zip(ms, applied, res[1])):
+            # the product sets as a multiset: each must be the declared edits applied at some match, each match used once
+            # (the order in which the matches are processed is not part of the property; the tie compares it)
+            def key_of(atoms3, bonds):
+                return json.dumps([atoms3, sorted([sorted(q), v] for q, v in bonds.items())])
+            pending = collections.defaultdict(list)
+            for f, a in zip(ms, applied):
+                pending[key_of(a[1], a[2])].append(f)
+            for k, p in enumerate(res[1]):
                 if isinstance(p, str):
                     ok = False
-                    ctx.violation('atoms are not conserved: ' + p, dict(inp, match=list(f)), expected=None, observed=None)
+                    ctx.violation('atoms are not conserved: ' + p, dict(inp, product_set=k), expected=None, observed=None)
                     break
                 pa, pb, pc = p
-                bad = RU.check_product(rule, g, f, [x[:3] for x in pa], pb, pc)
+                pa3 = [x[:3] for x in pa]
+                cand = pending.get(key_of(pa3, pb))
+                if not cand:
+                    ok = False
+                    f = ms[k] if k < len(ms) else ms[0]
+                    a = applied[k] if k < len(ms) else applied[0]
+                    bad = RU.check_product(rule, g, f, pa3, pb, pc)
+                    ctx.violation(bad[0] if bad else 'a product set is not the reactant with exactly the declared edits applied at a match',
+                                  dict(inp, product_set=k, match_in_order=list(f)),
+                                  expected={'atoms': a[1], 'bonds': sorted([sorted(q), v] for q, v in a[2].items())},
+                                  observed={'atoms': pa3, 'bonds': sorted([sorted(q), v] for q, v in pb.items()), 'clauses violated': bad})
+                    break
+                f = cand.pop(0)
+                bad = RU.check_product(rule, g, f, pa3, pb, pc)
                 if bad:
                     ok = False
                     ctx.violation(bad[0], dict(inp, match=list(f)), expected='conservation, frame and balance clauses', observed=bad)
-                    break
-                if [x[:3] for x in pa] != a[1] or pb != a[2]:
-                    ok = False
-                    ctx.violation('a product set is not the reactant with exactly the declared edits applied', dict(inp, match=list(f)),
-                                  expected={'atoms': a[1], 'bonds': sorted([sorted(q), v] for q, v in a[2].items())},
-                                  observed={'atoms': [x[:3] for x in pa], 'bonds': sorted([sorted(q), v] for q, v in pb.items())})
                     break
             if ms:
                 ctx.count('pairs_with_products')
